@@ -243,7 +243,7 @@ func Fact(tag string, a, b, c int) { Log(fmt.Sprintf("fact %s:%d:%d:%d", tag, a,
 func JSONStr(typ, path string) string { return "" }
 func JSONState(typ, path string) int  { return 0 }
 
-var spawnWait = map[string]time.Duration{"CloseConnection$1": 700 * time.Millisecond, "handleState$1": 1300 * time.Millisecond}
+var spawnWait = map[string]time.Duration{"HandleShipHandshakeStateUpdate$1": 750 * time.Millisecond, "CloseConnection$1": 700 * time.Millisecond, "handleState$1": 1300 * time.Millisecond}
 
 func field(p any, name string) reflect.Value {
 	v := reflect.ValueOf(p)
